@@ -110,7 +110,7 @@ HasPublish(c) == \E i \in 1..Len(c.conn) : c.conn[i].kind = "publish"
 \* AsyncSubject) the monitor stops judging deliveries and keeps only "holds no observer after a terminal".
 SubjRoot(root) == root.op = "subject" \/ (root.op = "map" /\ root.f = "inc" /\ root.in[1].op = "subject")
 SubjMap(root, v) == IF root.op = "map" THEN v + root.a ELSE v
-Sbj0(kind) == [live |-> {}, items |-> <<>>, last |-> IF kind = "behavior" THEN <<9>> ELSE <<>>, term |-> <<>>, open |-> TRUE]
+Sbj0(kind) == [live |-> {}, items |-> <<>>, last |-> IF kind = "behavior" THEN <<9>> ELSE <<>>, term |-> <<>>, open |-> TRUE, reused |-> FALSE]
 NoOut == [u \in Sinks |-> <<>>]
 \* expected deliveries of one stimulus, per sink, and the next state of the automaton
 SbjStep(s, kind, root, st) ==
@@ -134,7 +134,14 @@ PerSink(obs, u) == LET q == SelectSeq(obs, LAMBDA e : e.o = "cb" /\ e.u = u) IN 
 RECURSIVE SbjRun(_,_,_,_,_)
 SbjRun(tr, i, s, kind, root) ==
   IF i > Len(tr) THEN TRUE
-  ELSE IF ~s.open THEN TRUE            \* after the first terminal the statement is silent (the observer count was judged with the terminal itself)
+  ELSE IF ~s.open THEN
+       \* after the first terminal the statement still fixes what a NEW subscriber is handed: a ReplaySubject every past item in
+       \* order followed by the stored terminal, a BehaviorSubject the stored terminal; everything else (further calls on a
+       \* terminated subject, late subscribers of Subject / AsyncSubject) is left open and not judged
+       /\ (tr[i].st.k = "sub" /\ kind \in {"replay", "behavior"} /\ ~s.reused) =>
+            PerSink(tr[i].obs, tr[i].st.a) = (IF kind = "replay" THEN [j \in 1..Len(s.items) |-> <<"n", SubjMap(root, s.items[j])>>] ELSE <<>>)
+                                              \o << <<s.term[1].k, IF s.term[1].k = "e" THEN s.term[1].v ELSE 0>> >>
+       /\ SbjRun(tr, i + 1, [s EXCEPT !.reused = @ \/ tr[i].st.k = "subj"], kind, root)
   ELSE LET r == SbjStep(s, kind, root, tr[i].st) IN
        /\ \A u \in Sinks : PerSink(tr[i].obs, u) = r.out[u]
        /\ (tr[i].cnt # <<>> /\ tr[i].cnt[1] # -1 => tr[i].cnt[1] = Cardinality(r.s.live))       \* holds exactly the current observers
